@@ -38,10 +38,10 @@ func init() {
 				Extra: map[string]interface{}{"deviation_bound_target": b}}
 		},
 		Workers:      constInt(0, 0),
-		SchedWorkers: constInt(10, 10),
+		SchedWorkers: constInt(16, 16),
 		Budget: func(tier string) time.Duration {
 			if tier == "quick" {
-				return 150 * time.Second
+				return 300 * time.Second
 			}
 			return 150 * time.Minute // bound 2 over ~600 scheduling points per execution is ~10^6 schedules per harness
 		},
